@@ -240,6 +240,11 @@ func (it *TxnIterator) advance() {
 			}
 		}
 		if !it.materializeEntry(entry, cf, userKey, version) {
+			// The newest visible version is a tombstone or has expired: the key is not
+			// part of the snapshot, so its older versions must not be yielded in its place.
+			if !it.opt.AllVersions && !it.opt.Reverse {
+				it.lastKey = append(it.lastKey[:0], userKey...)
+			}
 			it.iitr.Next()
 			continue
 		}
